@@ -223,7 +223,7 @@ func (g *poolGen) validSpec(from *world.Wallet, nonce int64) (world.TxnSpec, str
 	case 4:
 		start := int64(g.now) + int64(r.Intn(100))
 		dests := []map[string]interface{}{{"id": to.ID, "amount": 1000 + r.Intn(1000)}}
-		return world.TxnSpec{From: from, To: vestingsc.ADDRESS, Value: currency.Coin(5000), Nonce: nonce, Type: T, Func: "add", Input: map[string]interface{}{"description": "v", "start_time": start, "duration": int64(3600), "destinations": dests}}, "vesting.add"
+		return world.TxnSpec{From: from, To: vestingsc.ADDRESS, Value: currency.Coin(5000), Nonce: nonce, Type: T, Func: "add", Input: map[string]interface{}{"description": "v", "start_time": start, "duration": int64(10 * time.Minute), "destinations": dests}}, "vesting.add"
 	case 5:
 		m := g.w.Miners[r.Intn(len(g.w.Miners))]
 		return world.TxnSpec{From: from, To: minersc.ADDRESS, Value: currency.Coin([]uint64{1e10, 5e10, 1e11}[r.Intn(3)]), Nonce: nonce, Type: T, Func: "addToDelegatePool", Input: map[string]interface{}{"provider_type": 1, "provider_id": m.ID}}, "miner.stake"
